@@ -11,7 +11,7 @@ PLAN = dict(
           "Non-trivial: the mutant differs from the honest stream and the payload spans >= 2 records (arbitrary digest: the stream carries a record-size "
           "field within the limit and at least one further octet, so a record is checked against the digest); distinct by fingerprint of the case."),
     assumptions=TRUSTED + ["SHA-256 collision/preimage resistance: a stream that authenticates under a digest carries the committed payload",
-                           "behaviour of Read after it has returned an error is not examined (the property speaks about output before the error)",
+                           "after Read has returned an error, four further Reads are made: they must not hand out unauthenticated octets and must not report a clean io.EOF for a payload that was not delivered completely; which error they report is not examined",
                            "a Read may return (0, nil) for a non-empty buffer at most 4 times in a row; more is reported as no-progress"],
     runs=[
         dict(name="exh", run="^(TestExhaustiveMutations|TestCorpus)$", shards=(1, 16), timeout=(300, 3600)),
